@@ -339,6 +339,14 @@ func runWatchJob(c *Ctl, job *Job, idx int, res *RunResult, pre *watchPre) {
 		}
 	}
 	c.Quiesce()
+	// the paths are registered with the kernel before the start-up run of the task begins: what
+	// happens to them while that run is still going must not be lost
+	if n := inotifyWatches(pre.inoFDs); pre.baseWatches >= 0 && n >= 0 && len(c.ParkedOf("exec", "run-enter")) > 0 {
+		if n != len(want) {
+			c.Violate("C20", "registered-after-first-run", "the start-up run of the task is in progress and the watcher has registered %d of its %d selected path(s) with the kernel: events during that run are lost", n, len(want))
+		}
+		c.Count("c20_registration_checked_during_first_run")
+	}
 	// the initial run
 	finishRuns(10 * time.Second)
 	if len(execs) != 1 {
